@@ -173,9 +173,28 @@ func LoadProgram(repo, mirror string) (*Program, error) {
 		overlay[filepath.Join(repo, dirOf[short], "zz_spec_synth_verif.go")] = []byte(src)
 	}
 	pkgs2, err := loadPkgs(repo, overlay)
-	for attempt := 0; err != nil && attempt < 6; attempt++ {
+	for attempt := 0; err != nil && attempt < 12; attempt++ {
 		// a contract whose clauses no longer type-check against the code (the function's signature or
 		// the fields it mentions changed) is stale: drop it, record it, and try again
+		// a clause that only fails because a local variable it names no longer exists is re-bound when the
+		// baseline knows the variable's type and exactly one new local of that type is in scope (a rename)
+		if rebindRenamedLocals(prog1, cs, err.Error(), synth, specIndex) {
+			for k := range overlay {
+				if strings.HasSuffix(k, "zz_spec_synth_verif.go") {
+					delete(overlay, k)
+				}
+			}
+			prog1 = indexProgram(repo, pkgs1, cs)
+			synth, specIndex, err = synthesize(prog1)
+			if err != nil {
+				return nil, err
+			}
+			for short, src := range synth {
+				overlay[filepath.Join(repo, dirOf[short], "zz_spec_synth_verif.go")] = []byte(src)
+			}
+			pkgs2, err = loadPkgs(repo, overlay)
+			continue
+		}
 		stale := staleOwners(err.Error(), synth, specIndex)
 		unused := unusedImports(err.Error())
 		if os.Getenv("VERIF_DEBUG_STALE") != "" {
@@ -943,4 +962,99 @@ func unusedImports(errText string) []string {
 		out = append(out, short+"|"+m[2])
 	}
 	return out
+}
+
+// BaselineLocals is set by main from baseline_obligations.json (contract key -> local name -> type)
+var BaselineLocals map[string]map[string]string
+
+// rebound: contract key -> old name -> true (each name is re-bound at most once)
+var rebound = map[string]map[string]bool{}
+
+func rebindRenamedLocals(prog *Program, cs *ContractSet, errText string, synth map[string]string, index map[string]*SpecFn) bool {
+	if len(BaselineLocals) == 0 {
+		return false
+	}
+	re := regexp.MustCompile(`([^\s:]+/zz_spec_synth_verif\.go:\d+:\d+): undefined: (\w+)`)
+	changed := false
+	for _, m := range re.FindAllStringSubmatch(errText, -1) {
+		owners := staleOwners(m[1], synth, index)
+		if len(owners) != 1 {
+			continue
+		}
+		owner, name := owners[0], m[2]
+		want, ok := BaselineLocals[owner][name]
+		if !ok || rebound[owner][name] {
+			continue
+		}
+		fi := prog.Funcs[owner]
+		con := cs.Funcs[owner]
+		if fi == nil || con == nil || fi.Decl.Body == nil {
+			continue
+		}
+		// candidates: locals of the function with the wanted type whose names the baseline did not know
+		q := qualifierFor(fi.Pkg.Types)
+		cand := map[string]bool{}
+		stillThere := false
+		ast.Inspect(fi.Decl.Body, func(n ast.Node) bool {
+			id, ok := n.(*ast.Ident)
+			if !ok {
+				return true
+			}
+			v, ok := fi.Pkg.TypesInfo.Defs[id].(*types.Var)
+			if !ok || v.IsField() {
+				return true
+			}
+			if v.Name() == name {
+				stillThere = true
+			}
+			if _, known := BaselineLocals[owner][v.Name()]; known {
+				return true
+			}
+			if types.TypeString(v.Type(), q) == want {
+				cand[v.Name()] = true
+			}
+			return true
+		})
+		if stillThere || len(cand) != 1 {
+			continue
+		}
+		var neu string
+		for c := range cand {
+			neu = c
+		}
+		wordRe := regexp.MustCompile(`(^|[^.\w])` + regexp.QuoteMeta(name) + `($|[^\w])`)
+		fix := func(c *Clause) {
+			if c == nil {
+				return
+			}
+			for wordRe.MatchString(c.Text) {
+				c.Text = wordRe.ReplaceAllString(c.Text, "${1}"+neu+"${2}")
+			}
+		}
+		for _, c := range con.Requires {
+			fix(c)
+		}
+		for _, c := range con.Ensures {
+			fix(c)
+		}
+		for _, c := range con.Asserts {
+			fix(c)
+		}
+		for _, ls := range con.Loops {
+			for _, c := range ls.Invariants {
+				fix(c)
+			}
+			fix(ls.Decreases)
+		}
+		for i, mode := range con.MapRange {
+			con.MapRange[i] = wordRe.ReplaceAllString(mode, "${1}"+neu+"${2}")
+		}
+		if rebound[owner] == nil {
+			rebound[owner] = map[string]bool{}
+		}
+		rebound[owner][name] = true
+		cs.Rebound = append(cs.Rebound, fmt.Sprintf("%s: local %s was renamed to %s in the code (same type %s, only new local of that type): contract re-bound", owner, name, neu, want))
+		changed = true
+	}
+	return changed
 }
